@@ -182,7 +182,15 @@ fn generate_e(seed: u64, quick: bool) -> Value {
                 }
                 // a long definition: the file grows past the reader's and the pipe's buffer sizes
                 let n = *g.rng.pick(&[3000usize, 8150, 8192, 20000, 70000]);
-                let filler: String = (0..n).map(|i| (b'a' + (i % 23) as u8) as char).collect();
+                // ... sometimes made of characters that take two or three bytes each, so that
+                // wherever a reader cuts the file into pieces a character may straddle the cut
+                let unit = *g.rng.pick(&["", "", "é", "я", "€"]);
+                let filler: String = if unit.is_empty() {
+                    (0..n).map(|i| (b'a' + (i % 23) as u8) as char).collect()
+                } else {
+                    let lead = "xyz"[..g.rng.upto(3)].to_string();
+                    format!("{}{}", lead, unit.repeat(n / unit.len()))
+                };
                 items.push(json!({"forms": [format!("(define filler{} \"{}\")", count, filler)], "markers": [], "kind": "long-definition"}));
             }
             8 => {
